@@ -74,8 +74,24 @@ func (c *c30Child) caseLive(k int) { //nolint:cyclop,gocognit,gocyclo,maintidx
 	mutateFirst := r.Bool()
 	seedFirst := r.Uint64()
 	nFirst := r.Range(1, 3)
-	a := c.newPeer(c30PCOpt{Sem: semA, Icpt: icpt})
-	v := c.newPeer(c30PCOpt{Sem: semV, Icpt: icpt, SE: func(se *SettingEngine) {
+	// configuration dimension: the victim (and sometimes the live peer) is a generated application profile
+	var profV, profA *c30Profile
+	if r.Chance(0.45) {
+		profV = c30GenProfile(r)
+	}
+	if r.Chance(0.15) {
+		profA = c30GenProfile(r)
+	}
+	// foreign m-sections riding on the live peer's offers (only when the live peer makes the first offer)
+	var graft *c30Graft
+	graftFirst := !vOffers && r.Chance(0.5)
+	graftSeed := c.pickSeed(r)
+	seedGraft := r.Uint64()
+	if graftFirst && mutateFirst && r.Bool() {
+		mutateFirst = false
+	}
+	a := c.newPeer(c30PCOpt{Sem: semA, Icpt: icpt, Prof: profA})
+	v := c.newPeer(c30PCOpt{Sem: semV, Icpt: icpt, Prof: profV, SE: func(se *SettingEngine) {
 		if k%6 == 2 {
 			se.SetHandleUndeclaredSSRCWithoutAnswer(true)
 		}
@@ -83,35 +99,74 @@ func (c *c30Child) caseLive(k int) { //nolint:cyclop,gocognit,gocyclo,maintidx
 			se.SetFireOnTrackBeforeFirstRTP(true)
 		}
 	}})
+	if profV != nil || profA != nil {
+		a.sendCaps, v.sendCaps = c30CommonCaps(profA, profV), c30CommonCaps(profV, profA)
+	}
 	c.setup(a, setupA)
 	c.setup(v, setupV)
-	tag := fmt.Sprintf("live|%s<-%s|icpt%d|A%d|V%d", c30SemName(semV), c30SemName(semA), icpt, setupA, setupV)
+	if first := map[bool]*c30Peer{true: v, false: a}[vOffers]; (profV != nil || profA != nil) && len(first.pc.GetTransceivers()) == 0 {
+		_, _ = first.pc.CreateDataChannel("c30", nil) // nothing in common to send: the first offer still needs a section
+	}
+	tag := fmt.Sprintf("live|%s<-%s|icpt%d|A%d|V%d|cfgV=%s|cfgA=%s", c30SemName(semV), c30SemName(semA), icpt, setupA, setupV, profV.Key(), profA.Key())
 	steps := []any{}
 	cur := map[string]any{
 		"phase": "sdp-live", "victim_semantics": c30SemName(semV), "peer_semantics": c30SemName(semA), "interceptors": icpt,
 		"peer_setup": setupA, "victim_setup": setupV, "victim_offers_first": vOffers, "steps": steps,
 	}
+	if profV != nil {
+		cur["victim_profile"] = profV
+		c.Seen("victim_media_engine", profV.ME)
+		c.Seen("victim_policy", profV.Bundle+"/"+profV.RTCPMux)
+		for _, s := range profV.SE {
+			c.Seen("victim_setting_engine", s)
+		}
+		c.Count("live_victim_profiled", 1)
+	}
+	if profA != nil {
+		cur["peer_profile"] = profA
+		c.Seen("peer_media_engine", profA.ME)
+		c.Count("live_peer_profiled", 1)
+	}
 	c.setCur(cur)
 	c.Seen("live_mode", fmt.Sprintf("%s<-%s", c30SemName(semV), c30SemName(semA)))
 	var firstNames []string
-	var firstText string
+	var firstText, firstAnswer string
 	munge := func(s string) string {
-		if !mutateFirst {
+		firstText = s
+		if graftFirst {
+			if graft = c30NewGraft(kit.NewRand(seedGraft, 31), s, graftSeed.SDP, graftSeed.Name); graft != nil {
+				firstText = graft.apply(s)
+				cur["grafted_sections"] = graft
+			}
+		}
+		if mutateFirst {
+			firstText, firstNames = c30MutateSDP(kit.NewRand(seedFirst, 30), firstText, nFirst, true)
+		}
+		if !mutateFirst && graft == nil {
 			return s
 		}
-		firstText, firstNames = c30MutateSDP(kit.NewRand(seedFirst, 30), s, nFirst, true)
 		cur["first_exchange_received_by_victim"] = map[string]any{"mutators": firstNames, "sdp": firstText}
 		c.setCur(cur)
 
 		return firstText
+	}
+	// what the victim answered goes back to the live peer without the sections the live peer never offered
+	unGraft := func(s string) string {
+		firstAnswer = s
+		if graft == nil {
+			return s
+		}
+
+		return c30StripSections(s, graft.Mids)
 	}
 	var connected bool
 	var err error
 	if vOffers {
 		connected, err = c.connectPair(v, a, nil, munge)
 	} else {
-		connected, err = c.connectPair(a, v, munge, nil)
+		connected, err = c.connectPair(a, v, munge, unGraft)
 	}
+	munged := mutateFirst || graft != nil
 	role0 := "offer"
 	if vOffers {
 		role0 = "answer"
@@ -123,12 +178,39 @@ func (c *c30Child) caseLive(k int) { //nolint:cyclop,gocognit,gocyclo,maintidx
 		if mutateFirst {
 			c.Count("live_connected_after_mutated_exchange", 1)
 		}
-	case !mutateFirst && err == nil:
+		if graft != nil {
+			c.Count("live_connected_with_grafted_foreign_sections", 1)
+			c.Seen("graft_source_connected", strings.SplitN(graft.Source, ":", 2)[0])
+			for _, d := range graft.Streams {
+				c.Seen("graft_stream_declaration_connected", d)
+			}
+		}
+		if profV != nil {
+			c.Count("live_connected_victim_profiled", 1)
+			c.Seen("victim_media_engine_connected", profV.ME)
+		}
+		if profA != nil {
+			c.Count("live_connected_peer_profiled", 1)
+		}
+		if !vOffers && firstAnswer != "" {
+			// which codec-negotiation situations the victim's background work (startRTP) now runs with
+			for _, f := range c30NegotiationFacts(firstText, firstAnswer) {
+				c.Seen("negotiation_on_connected_pair", f)
+			}
+		}
+		// the queued start of the receivers / senders runs once the transports are up: let it finish (or crash) here
+		c30SoftDrain(v.pc, 200*time.Millisecond)
+	case !munged && profV == nil && profA == nil && err == nil:
 		c.inconclusive("live:unmutated-pair-did-not-connect")
 	default:
 		c.Count("live_not_connected", 1)
+		if !munged && err == nil {
+			// two pion applications with different configurations: not connecting is a legitimate outcome
+			// (nothing in common, ice-lite on both sides ...), it is only counted
+			c.Count("live_not_connected_profiled_unmutated", 1)
+		}
 	}
-	if mutateFirst {
+	if munged {
 		for _, n := range firstNames {
 			c.Seen("mutators_connected_pair", strings.SplitN(n, ":", 2)[0])
 		}
@@ -234,7 +316,15 @@ func (c *c30Child) caseLive(k int) { //nolint:cyclop,gocognit,gocyclo,maintidx
 				continue
 			}
 		}
+		regrafted := false
+		if graft != nil && role == "offer" && r.Chance(0.7) {
+			// the foreign sections stay part of the session, like the sections of a real multi-party offer would
+			base, regrafted = graft.apply(base), true
+		}
 		text, names := c30MutateSDP(r, base, kit.Pick(r, []int{0, 1, 1, 2, 2, 3}), r.Chance(0.4))
+		if regrafted {
+			names = append(names, "regraft")
+		}
 		steps = append(steps, map[string]any{"step": s, "role": role, "mutators": names, "sdp": text})
 		cur["steps"] = steps
 		c.setCur(cur)
@@ -249,6 +339,9 @@ func (c *c30Child) caseLive(k int) { //nolint:cyclop,gocognit,gocyclo,maintidx
 			// complete the round on A so that both sides stay in step
 			if ld := v.pc.LocalDescription(); ld != nil {
 				ans := *ld
+				if graft != nil {
+					ans.SDP = c30StripSections(ans.SDP, graft.Mids)
+				}
 				_, _ = c.call("A.SetRemoteDescription(answer)", func() error { return a.pc.SetRemoteDescription(ans) })
 			}
 		}
@@ -554,8 +647,13 @@ func (c *c30Child) casePackets(k int) { //nolint:cyclop,gocognit
 	default:
 		setupA, setupV, vOffers = 4, 4, r.Bool()
 	}
+	// configuration dimension: packets meet a victim whose MediaEngine knows only part (or nothing) of what was offered
+	var profV *c30Profile
+	if r.Chance(0.35) {
+		profV = c30GenProfile(r)
+	}
 	a := c.newPeer(c30PCOpt{Sem: semA, Icpt: icpt})
-	v := c.newPeer(c30PCOpt{Sem: semV, Icpt: icpt, SE: func(se *SettingEngine) {
+	v := c.newPeer(c30PCOpt{Sem: semV, Icpt: icpt, Prof: profV, SE: func(se *SettingEngine) {
 		if k%3 == 1 {
 			se.SetHandleUndeclaredSSRCWithoutAnswer(true)
 		}
@@ -563,10 +661,20 @@ func (c *c30Child) casePackets(k int) { //nolint:cyclop,gocognit
 			se.SetFireOnTrackBeforeFirstRTP(true)
 		}
 	}})
+	if profV != nil {
+		a.sendCaps, v.sendCaps = c30CommonCaps(nil, profV), c30CommonCaps(profV, nil)
+	}
 	c.setup(a, setupA)
 	c.setup(v, setupV)
+	if first := map[bool]*c30Peer{true: v, false: a}[vOffers]; profV != nil && len(first.pc.GetTransceivers()) == 0 {
+		_, _ = first.pc.CreateDataChannel("c30", nil)
+	}
 	vname := fmt.Sprintf("v%d:%s<-%s:icpt%d:A%d:V%d:vOffers=%v", variant, c30SemName(semV), c30SemName(semA), icpt, setupA, setupV, vOffers)
-	c.setCur(map[string]any{"phase": "packets", "variant": vname, "stage": "connecting"})
+	if profV != nil {
+		vname += ":cfgV=" + profV.Key()
+		c.Seen("victim_media_engine", profV.ME)
+	}
+	c.setCur(map[string]any{"phase": "packets", "variant": vname, "stage": "connecting", "victim_profile": profV})
 	var connected bool
 	if vOffers {
 		connected, _ = c.connectPair(v, a, nil, nil)
@@ -574,12 +682,20 @@ func (c *c30Child) casePackets(k int) { //nolint:cyclop,gocognit
 		connected, _ = c.connectPair(a, v, nil, nil)
 	}
 	if !connected {
-		c.inconclusive("packets:pair-did-not-connect")
+		if profV == nil {
+			c.inconclusive("packets:pair-did-not-connect")
+		} else {
+			c.Count("packets_profiled_pair_did_not_connect", 1) // e.g. nothing in common: legitimate, only counted
+		}
 		c.finish(v.pc, a.pc)
 
 		return
 	}
-	c.Seen("packet_variant", vname)
+	if profV != nil {
+		c.Count("packets_cases_victim_profiled", 1)
+		c.Seen("packet_victim_media_engine", profV.ME)
+	}
+	c.Seen("packet_variant", strings.SplitN(vname, ":cfgV=", 2)[0])
 	facts := c30SessionFacts(a.pc.LocalDescription().SDP, v.pc.LocalDescription().SDP)
 	for i := r.Range(3, 5); i > 0; i-- {
 		facts.Undecl = append(facts.Undecl, r.Uint32()|1)
@@ -635,7 +751,7 @@ func (c *c30Child) casePackets(k int) { //nolint:cyclop,gocognit
 			batch = append(batch, pk{Kind: kind + "+burst", Hex: kit.Hex(b2), raw: b2})
 		}
 	}
-	c.setCur(map[string]any{"phase": "packets", "variant": vname, "stage": "injecting", "facts": map[string]any{
+	c.setCur(map[string]any{"phase": "packets", "variant": vname, "stage": "injecting", "victim_profile": profV, "facts": map[string]any{
 		"declared": facts.Declared, "rtx": facts.RTX, "undeclared": facts.Undecl, "victim_own": facts.VictimOwn,
 		"media_pt": fmt.Sprint(facts.MediaPT), "rtx_pt": fmt.Sprint(facts.RTXPT), "mid_id": facts.MidID, "rid_id": facts.RidID, "rrid_id": facts.RRidID,
 	}, "batch": batch})
